@@ -490,7 +490,7 @@ def gen_c06(seed, tier='quick', opts=None):
     g = G(seed)
     opts = dict(opts or {})
     t0 = T_BASE + g.rint(0, 86400 * 365 * 8)
-    nusers = g.wpick([(1, 3), (2, 3), (g.rint(3, 6), 2), (g.rint(17, 20), 0.6)])
+    nusers = g.wpick([(1, 3), (2, 3), (g.rint(3, 6), 2), (g.rint(17, 20), 0.25 if tier == 'quick' else 0.8)])
     users = [{'uid': 1000 + i, 'gid': 1000 + i, 'name': 'u%d' % (1000 + i)} for i in range(nusers)]
     cfg = base_cfg(g, t0)
     cfg['late'] = [0.0, 1.0, 0.0, 0.01]
@@ -498,7 +498,9 @@ def gen_c06(seed, tier='quick', opts=None):
     ops = []
     t = t0 + 0.5
     big = g.chance(0.35)
-    nadd = g.wpick([(g.rint(1, 3), 4), (g.rint(4, 10), 3), (g.rint(11, 30), 1), (g.rint(40, 120) if tier != 'quick' else g.rint(20, 45), 0.5)])
+    nadd = g.wpick([(g.rint(1, 3), 4), (g.rint(4, 10), 3), (g.rint(11, 30), 1 if tier != 'quick' else 0.4), (g.rint(40, 120) if tier != 'quick' else g.rint(12, 25), 0.5 if tier != 'quick' else 0.15)])
+    if nusers > 6:
+        nadd = max(nadd, nusers + g.rint(0, 3))
     horizon = 900
     owners = {}
     for i in range(nadd):
@@ -570,3 +572,105 @@ def gen_c06(seed, tier='quick', opts=None):
 
 
 PROFILES['C06'] = gen_c06
+
+
+# ---------------------------------------------------------------- C05
+WORDS = ['alpha', 'beta', 'gamma', 'delta', 'x y', 'a,b', 'semi;colon', 'co:lon', 'quo"te',
+         'tab\there', 'uml\xe4ut', 'caf\xe9', '100%', '$HOME', '`id`', "it's", '#hash', 'a=b', '(p)']
+
+
+def rand_text(g, lo=1, hi=40, path=False):
+    n = g.rint(lo, hi)
+    out = ''
+    while len(out) < n:
+        w = g.pick(WORDS)
+        if path:
+            w = w.replace('\t', '_').replace(' ', '_').replace(';', '_').replace(',', '_').replace(':', '_')
+        out += w + (' ' if not path else '/')
+    return out[:n].rstrip(' /') or 'x'
+
+
+def add_fields(g, sp, opts=None):
+    """decorate a spec with the README's task fields, each present/absent
+    independently; no backslashes (their escape semantics are undocumented)"""
+    opts = opts or {}
+    if g.chance(0.7):
+        sp['cmd'] = rand_text(g, 1, g.pick([10, 40, 200, 900]))
+    if g.chance(0.4):
+        sp['location'] = '/' + rand_text(g, 1, 40, path=True)
+    if g.chance(0.4):
+        sp['shell'] = g.pick(['/bin/sh', '/bin/bash', '/usr/bin/zsh', '/bin/my shell'])
+    for k in ('ifile', 'ofile', 'efile'):
+        if g.chance(0.3):
+            sp[k] = '/tmp/' + rand_text(g, 1, 30, path=True)
+    if g.chance(0.4):
+        sp['umask'] = g.pick(['022', '077', '0', '027', '0777', '0002', '7', '0666'])
+    for k in ('mailrun', 'mailout', 'mailerr'):
+        if g.chance(0.35):
+            sp[k] = g.pick(['1', '0', 'true', 'false', 'yes', 'F', 'TRUE'])
+    if g.chance(0.3):
+        sp['organizer'] = g.pick(['root@example.com', 'mailto:ops@example.com', 'Ops Team'])
+    if g.chance(0.3):
+        sp['attendees'] = [g.pick(['a@x.org', 'mailto:b@y.org', 'carol', 'mailto:d+tag@z.net'])
+                           for _ in range(g.rint(1, 4))]
+    if g.chance(0.2):
+        sp['desc'] = rand_text(g, 1, 60)
+    if g.chance(0.4):
+        d = g.pick([1, 5, 59, 60, 61, 90, 3600, 3661, 86400, 90061])
+        if g.chance(0.5) and not sp.get('allday'):
+            sp['dtend'] = sp['start'] + d
+        else:
+            sp['duration'] = ical.dur2iso(d)
+        sp['_dur'] = d
+    return sp
+
+
+def gen_c05(seed, tier='quick', opts=None):
+    """C05: every task field through user file -> echsq -> echsd -> checkpoint
+    -> restart -> executor request, with k occurrences consumed in between"""
+    o = {'property': 'C05', 'max_occ': 260, 'p_rule2': 0.0, 'p_rdate': 0.0, 'max_spawns': 400}
+    o.update(opts or {})
+    g = G(seed ^ 0x0c05)
+    plan = gen_c04(seed, tier, o)
+    # decorate the tasks
+    for t in plan['tasks']:
+        sp = t['spec']
+        add_fields(g, sp)
+        if '_dur' in sp:
+            t['dur'] = sp.pop('_dur')
+        else:
+            t['dur'] = 0
+    # formats of the user files
+    for ep in plan['epochs']:
+        for op in ep['ops']:
+            if op['op'] == 'add':
+                if g.chance(0.3):
+                    op['crlf'] = True
+                if g.chance(0.3):
+                    op['foldw'] = g.pick([20, 40, 60, 75])
+                if g.chance(0.2):
+                    op['cal'] = {'umask': g.pick(['027', '077', '0'])}
+    # short executor lives: this campaign is about what is handed over
+    plan['life'] = {'*': [[0.2, 0, 0.0]]}
+    # make sure at least one restart happens, after some consumption
+    if len(plan['epochs']) == 1:
+        ep = plan['epochs'][0]
+        t0 = ep['start']
+        ends = [o_ for o_ in ep['ops'] if o_['op'] in ('sigterm', 'crash')]
+        tend = min(o_['t'] for o_ in ends)
+        cut = t0 + g.uni(0.2, 0.8) * (tend - t0)
+        before = [o_ for o_ in ep['ops'] if o_['t'] < cut and o_['op'] not in ('sigterm', 'crash')]
+        after = [o_ for o_ in ep['ops'] if o_['t'] >= cut + 5]
+        how = g.pick(['sigterm', 'sigterm', 'crash'])
+        before.append({'t': round(cut, 3), 'op': how})
+        before.append({'t': round(cut + 1, 3), 'op': 'crash'})
+        down = g.pick([0.5, 2, 30])
+        after = [o_ for o_ in after if o_['t'] > cut + 2 + down]
+        if not any(o_['op'] in ('sigterm', 'crash') for o_ in after):
+            after.append({'t': round(max(tend, cut + 10 + down), 3), 'op': 'crash'})
+        plan['epochs'] = [{'start': t0, 'ops': before}, {'start': round(cut + 1.5 + down, 3), 'ops': after}]
+    plan['property'] = 'C05'
+    return plan
+
+
+PROFILES['C05'] = gen_c05
